@@ -37,6 +37,13 @@ type recStore struct {
 	idx    int
 	txMode bool
 	snap   *storeSnap // store at BeginTX of the open transaction (txStore only)
+	txSeq  int        // token of the open transaction, carried by the context BeginTX returns
+	inTx   bool       // the current storage call carries the open transaction's context
+
+	// schedule gating (op "par"): every storage call parks until the scheduler releases it
+	gate    *gate
+	parMode bool
+	cur     int
 
 	fullCode map[string]string // code signature -> complete code, as minted
 
@@ -98,10 +105,28 @@ func errWire(err error) string {
 }
 
 func (s *recStore) log(format string, a ...interface{}) {
-	s.calls = append(s.calls, fmt.Sprintf(format, a...))
+	e := fmt.Sprintf(format, a...)
+	if s.snap != nil && !s.inTx && isWriteCall(e) && strings.HasSuffix(e, "=ok") {
+		// a transaction is open but this write came with a context that does not carry it: on a store that
+		// keeps its transaction in the context the write would be applied outside the transaction
+		e += "!notx"
+	}
+	if s.parMode {
+		e = fmt.Sprintf("t%d:%s", s.cur, e)
+	}
+	s.calls = append(s.calls, e)
 }
 
 // known reports whether a key is present in an order list (i.e. is a stored signature)
+func isWriteCall(e string) bool {
+	for _, p := range []string{"create", "invalidate", "delete", "revoke", "rotate"} {
+		if strings.HasPrefix(e, p) {
+			return true
+		}
+	}
+	return false
+}
+
 func has(order []string, k string) bool {
 	for _, x := range order {
 		if x == k {
@@ -195,6 +220,7 @@ func (s *recStore) fault() error {
 }
 
 func (s *recStore) GetClient(ctx context.Context, id string) (fosite.Client, error) {
+	s.enter(ctx)
 	if err := s.fault(); err != nil {
 		s.log("getClient(%s)=%s", id, resClass(err))
 		return nil, err
@@ -205,6 +231,7 @@ func (s *recStore) GetClient(ctx context.Context, id string) (fosite.Client, err
 }
 
 func (s *recStore) CreateAuthorizeCodeSession(ctx context.Context, code string, req fosite.Requester) error {
+	s.enter(ctx)
 	s.hand("createCode", code, req)
 	if err := s.fault(); err != nil {
 		s.log("createCode(?,%s)=%s", ref('G', req.GetID()), resClass(err))
@@ -217,6 +244,7 @@ func (s *recStore) CreateAuthorizeCodeSession(ctx context.Context, code string, 
 }
 
 func (s *recStore) GetAuthorizeCodeSession(ctx context.Context, code string, sess fosite.Session) (fosite.Requester, error) {
+	s.enter(ctx)
 	s.hand("getCode", code, nil)
 	if err := s.fault(); err != nil {
 		s.log("getCode(%s)=%s", keyRef('C', s.codeOrder, code), resClass(err))
@@ -231,6 +259,7 @@ func (s *recStore) GetAuthorizeCodeSession(ctx context.Context, code string, ses
 }
 
 func (s *recStore) InvalidateAuthorizeCodeSession(ctx context.Context, code string) error {
+	s.enter(ctx)
 	s.hand("invalidateCode", code, nil)
 	if err := s.fault(); err != nil {
 		s.log("invalidateCode(%s)=%s", keyRef('C', s.codeOrder, code), resClass(err))
@@ -242,6 +271,7 @@ func (s *recStore) InvalidateAuthorizeCodeSession(ctx context.Context, code stri
 }
 
 func (s *recStore) CreatePKCERequestSession(ctx context.Context, sig string, req fosite.Requester) error {
+	s.enter(ctx)
 	s.hand("createPKCE", sig, req)
 	if err := s.fault(); err != nil {
 		s.log("createPKCE(%s,%s)=%s", ref('C', sig), ref('G', req.GetID()), resClass(err))
@@ -254,6 +284,7 @@ func (s *recStore) CreatePKCERequestSession(ctx context.Context, sig string, req
 }
 
 func (s *recStore) GetPKCERequestSession(ctx context.Context, sig string, sess fosite.Session) (fosite.Requester, error) {
+	s.enter(ctx)
 	s.hand("getPKCE", sig, nil)
 	if err := s.fault(); err != nil {
 		s.log("getPKCE(%s)=%s", keyRef('C', s.codeOrder, sig), resClass(err))
@@ -268,6 +299,7 @@ func (s *recStore) GetPKCERequestSession(ctx context.Context, sig string, sess f
 }
 
 func (s *recStore) DeletePKCERequestSession(ctx context.Context, sig string) error {
+	s.enter(ctx)
 	s.hand("deletePKCE", sig, nil)
 	if err := s.fault(); err != nil {
 		s.log("deletePKCE(%s)=%s", keyRef('C', s.codeOrder, sig), resClass(err))
@@ -292,6 +324,7 @@ func (s *recStore) oidcKeyRef(code string) string {
 }
 
 func (s *recStore) CreateOpenIDConnectSession(ctx context.Context, code string, req fosite.Requester) error {
+	s.enter(ctx)
 	s.hand("createOIDC", code, req)
 	s.fullCode[sigOf(code)] = code
 	if err := s.fault(); err != nil {
@@ -305,6 +338,7 @@ func (s *recStore) CreateOpenIDConnectSession(ctx context.Context, code string, 
 }
 
 func (s *recStore) GetOpenIDConnectSession(ctx context.Context, code string, req fosite.Requester) (fosite.Requester, error) {
+	s.enter(ctx)
 	s.hand("getOIDC", code, nil)
 	if err := s.fault(); err != nil {
 		s.log("getOIDC(%s)=%s", s.oidcKeyRef(code), resClass(err))
@@ -319,6 +353,7 @@ func (s *recStore) GetOpenIDConnectSession(ctx context.Context, code string, req
 }
 
 func (s *recStore) DeleteOpenIDConnectSession(ctx context.Context, code string) error {
+	s.enter(ctx)
 	s.hand("deleteOIDC", code, nil)
 	if err := s.fault(); err != nil {
 		s.log("deleteOIDC(%s)=%s", s.oidcKeyRef(code), resClass(err))
@@ -332,6 +367,7 @@ func (s *recStore) DeleteOpenIDConnectSession(ctx context.Context, code string) 
 }
 
 func (s *recStore) CreateAccessTokenSession(ctx context.Context, sig string, req fosite.Requester) error {
+	s.enter(ctx)
 	s.hand("createAccess", sig, req)
 	if err := s.fault(); err != nil {
 		s.log("createAccess(?,%s)=%s", ref('G', req.GetID()), resClass(err))
@@ -345,6 +381,7 @@ func (s *recStore) CreateAccessTokenSession(ctx context.Context, sig string, req
 }
 
 func (s *recStore) GetAccessTokenSession(ctx context.Context, sig string, sess fosite.Session) (fosite.Requester, error) {
+	s.enter(ctx)
 	s.hand("getAccess", sig, nil)
 	if err := s.fault(); err != nil {
 		s.log("getAccess(%s)=%s", keyRef('A', s.accessOrder, sig), resClass(err))
@@ -359,6 +396,7 @@ func (s *recStore) GetAccessTokenSession(ctx context.Context, sig string, sess f
 }
 
 func (s *recStore) DeleteAccessTokenSession(ctx context.Context, sig string) error {
+	s.enter(ctx)
 	s.hand("deleteAccess", sig, nil)
 	if err := s.fault(); err != nil {
 		s.log("deleteAccess(%s)=%s", keyRef('A', s.accessOrder, sig), resClass(err))
@@ -372,6 +410,7 @@ func (s *recStore) DeleteAccessTokenSession(ctx context.Context, sig string) err
 }
 
 func (s *recStore) CreateRefreshTokenSession(ctx context.Context, sig, atSig string, req fosite.Requester) error {
+	s.enter(ctx)
 	s.hand("createRefresh", sig, req)
 	if err := s.fault(); err != nil {
 		s.log("createRefresh(?,%s,%s)=%s", ref('A', atSig), ref('G', req.GetID()), resClass(err))
@@ -385,6 +424,7 @@ func (s *recStore) CreateRefreshTokenSession(ctx context.Context, sig, atSig str
 }
 
 func (s *recStore) GetRefreshTokenSession(ctx context.Context, sig string, sess fosite.Session) (fosite.Requester, error) {
+	s.enter(ctx)
 	s.hand("getRefresh", sig, nil)
 	if err := s.fault(); err != nil {
 		s.log("getRefresh(%s)=%s", keyRef('R', s.refreshOrder, sig), resClass(err))
@@ -399,6 +439,7 @@ func (s *recStore) GetRefreshTokenSession(ctx context.Context, sig string, sess 
 }
 
 func (s *recStore) DeleteRefreshTokenSession(ctx context.Context, sig string) error {
+	s.enter(ctx)
 	s.hand("deleteRefresh", sig, nil)
 	if err := s.fault(); err != nil {
 		s.log("deleteRefresh(%s)=%s", keyRef('R', s.refreshOrder, sig), resClass(err))
@@ -412,6 +453,7 @@ func (s *recStore) DeleteRefreshTokenSession(ctx context.Context, sig string) er
 }
 
 func (s *recStore) RevokeRefreshToken(ctx context.Context, requestID string) error {
+	s.enter(ctx)
 	if err := s.fault(); err != nil {
 		s.log("revokeRefresh(%s)=%s", ref('G', requestID), resClass(err))
 		return err
@@ -423,6 +465,7 @@ func (s *recStore) RevokeRefreshToken(ctx context.Context, requestID string) err
 }
 
 func (s *recStore) RevokeAccessToken(ctx context.Context, requestID string) error {
+	s.enter(ctx)
 	if err := s.fault(); err != nil {
 		s.log("revokeAccess(%s)=%s", ref('G', requestID), resClass(err))
 		return err
@@ -434,6 +477,7 @@ func (s *recStore) RevokeAccessToken(ctx context.Context, requestID string) erro
 }
 
 func (s *recStore) RotateRefreshToken(ctx context.Context, requestID string, sig string) error {
+	s.enter(ctx)
 	s.hand("rotateRefresh", sig, nil)
 	if err := s.fault(); err != nil {
 		s.log("rotateRefresh(%s,%s)=%s", ref('G', requestID), keyRef('R', s.refreshOrder, sig), resClass(err))
@@ -462,6 +506,7 @@ func cloneAuthorizeRequest(ar fosite.AuthorizeRequester) *fosite.AuthorizeReques
 }
 
 func (s *recStore) CreatePARSession(ctx context.Context, uri string, request fosite.AuthorizeRequester) error {
+	s.enter(ctx)
 	s.hand("createPAR", uri, request)
 	if err := s.fault(); err != nil {
 		s.log("createPAR(?,%s)=%s", ref('G', request.GetID()), resClass(err))
@@ -474,6 +519,7 @@ func (s *recStore) CreatePARSession(ctx context.Context, uri string, request fos
 }
 
 func (s *recStore) GetPARSession(ctx context.Context, uri string) (fosite.AuthorizeRequester, error) {
+	s.enter(ctx)
 	s.hand("getPAR", uri, nil)
 	if err := s.fault(); err != nil {
 		s.log("getPAR(%s)=%s", keyRef('P', nil, uri), resClass(err))
@@ -488,6 +534,7 @@ func (s *recStore) GetPARSession(ctx context.Context, uri string) (fosite.Author
 }
 
 func (s *recStore) DeletePARSession(ctx context.Context, uri string) error {
+	s.enter(ctx)
 	s.hand("deletePAR", uri, nil)
 	if err := s.fault(); err != nil {
 		s.log("deletePAR(%s)=%s", keyRef('P', nil, uri), resClass(err))
@@ -504,6 +551,7 @@ func cloneDeviceRequest(r fosite.DeviceRequester) *fosite.DeviceRequest {
 }
 
 func (s *recStore) CreateDeviceAuthSession(ctx context.Context, dsig, usig string, req fosite.DeviceRequester) error {
+	s.enter(ctx)
 	s.hand("createDevice", dsig, req)
 	s.hand("createDevice", usig, nil)
 	if err := s.fault(); err != nil {
@@ -517,6 +565,7 @@ func (s *recStore) CreateDeviceAuthSession(ctx context.Context, dsig, usig strin
 }
 
 func (s *recStore) GetDeviceCodeSession(ctx context.Context, sig string, sess fosite.Session) (fosite.DeviceRequester, error) {
+	s.enter(ctx)
 	s.hand("getDevice", sig, nil)
 	if err := s.fault(); err != nil {
 		s.log("getDevice(%s)=%s", keyRef('D', nil, sig), resClass(err))
@@ -535,6 +584,7 @@ func (s *recStore) GetDeviceCodeSession(ctx context.Context, sig string, sess fo
 }
 
 func (s *recStore) InvalidateDeviceCodeSession(ctx context.Context, sig string) error {
+	s.enter(ctx)
 	s.hand("invalidateDevice", sig, nil)
 	if err := s.fault(); err != nil {
 		s.log("invalidateDevice(%s)=%s", keyRef('D', nil, sig), resClass(err))
@@ -555,6 +605,7 @@ func (s *recStore) InvalidateDeviceCodeSession(ctx context.Context, sig string) 
 
 // Authenticate answers with a deterministic subject so that observations are reproducible.
 func (s *recStore) Authenticate(ctx context.Context, name string, secret string) (string, error) {
+	s.enter(ctx)
 	s.hand("authenticateUser", name, nil)
 	if err := s.fault(); err != nil {
 		s.log("authenticateUser(%s)=%s", name, resClass(err))
